@@ -49,7 +49,7 @@ package datalog
 //@ requires t != nil
 //@ modifies nothing
 //@ ensures copy: result != nil && fresh(result) && len(*result) == len(*t) && (forall j int :: 0 <= j && j < len(*t) ==> (*result)[j] == (*t)[j])
-//@ ensures owns_capacity[C08 C19]: fresh(arr(*result)) || cap(*result) == len(*result)
+//@ ensures owns_capacity[C08 C19]: fresh(arr(*result))
 
 //@ func (t *SymbolTable) IsDisjoint(other *SymbolTable) (result bool)
 //@ serves C07 C08 C10
